@@ -3,7 +3,11 @@
 # meta.json (caught_by). Each patch is applied in a scratch worktree outside /repo and /verif, which is removed afterwards.
 cd /verif
 fail=0
+# optional sharding: SHARD=k NSHARDS=n runs every n-th seed starting at k (0-based)
+i=-1
 for d in seeded/*/; do
+  i=$((i+1))
+  [ -n "$NSHARDS" ] && [ $((i % NSHARDS)) != "${SHARD:-0}" ] && continue
   id=$(basename $d)
   checks=$(python3 -c "import json;print(' '.join(json.load(open('$d/meta.json')).get('caught_by',[])))")
   [ -z "$checks" ] && { echo "$id: (no check recorded as catching it)"; continue; }
